@@ -740,3 +740,9 @@ PROPERTIES["C02"]["mirsym"].append(
       budget={"quick": 300, "thorough": 300},
       required_covers=["c02.rep-reply.envelope-only-request", "c02.rep-reply.multi-frame-reply"]))
 PROPERTIES["C02"]["manifest"]["text"] += " REP: whatever the envelope shape of the request (also one that ends with the delimiter) and whatever MORE flags the application set, the reply reaches the connection as one unit: routing prefix, delimiter, reply frames, MORE on every frame but the last."
+PROPERTIES["C02"]["mirsym"].append(
+    M("c02_send_multipart_flags", "d_c02", "send_multipart_flags",
+      "{PushSocket, PubSocket, DealerSocket}::send_multipart (coroutine MIR; DEALER with its real FramingLatch in auto mode and an idle send transaction) with 1..3 frames, every MORE flag arbitrary; the routing / fan-out / DEALER send path behind them is a hook that records what it is given",
+      budget={"quick": 300, "thorough": 300},
+      required_covers=["c02.send-multipart.push", "c02.send-multipart.pub", "c02.send-multipart.dealer"]))
+PROPERTIES["C02"]["manifest"]["text"] += " PUSH, PUB and DEALER send_multipart hand on exactly the frames given (DEALER behind the empty delimiter), in order, with MORE on every frame but the last, whatever flags the application set; REQ puts [delimiter (MORE), request (no MORE)] on the wire."
